@@ -83,7 +83,7 @@ func runC02_7(c *core.Ctx) {
 			return s
 		}
 		if e.Tag != nil {
-			if o := flow.ObjOf(f.Info, e.Cond); o != nil && o.Name() == "EAGAIN" && e.Sense && isErrorType(f.Info.TypeOf(e.Tag)) {
+			if o := flow.ObjOf(f.Info, e.Cond); o != nil && nameOf(o) == "EAGAIN" && e.Sense && isErrorType(f.Info.TypeOf(e.Tag)) {
 				return s | fAgain
 			}
 			return s
@@ -228,23 +228,45 @@ func runC03_12(c *core.Ctx) {
 		return
 	}
 	// the flag is set to true somewhere inside the event loop over the returned events, on an edge comparing the event's descriptor
+	// decided on edges: every `flag = true` is reached only over an edge that says "two descriptors are equal"
+	// (an == test taken, a != test not taken, or the case of a switch) – the spelling of the test does not matter
 	setUnderWakeTest := false
-	ast.Inspect(f.Decl.Body, func(n ast.Node) bool {
-		is, ok := n.(*ast.IfStmt)
-		if !ok || is == guardIf {
-			return true
+	{
+		const fEq = 1
+		ep := &flow.Problem{Must: true}
+		ep.Edge = func(e *flow.Edge, in uint64) uint64 {
+			if l, r, eq, ok := flow.Equality(e); ok {
+				isInt := func(x ast.Expr) bool {
+					t := f.Info.TypeOf(x)
+					if t == nil {
+						return false
+					}
+					b, ok := t.Underlying().(*types.Basic)
+					return ok && b.Info()&types.IsInteger != 0
+				}
+				if isInt(l) && isInt(r) {
+					if eq {
+						return in | fEq
+					}
+					return in &^ fEq
+				}
+			}
+			return in
 		}
-		if _, _, op, ok := flow.Cmp(is.Cond); ok && op == token.EQL {
-			for _, st := range is.Body.List {
-				if as, ok := st.(*ast.AssignStmt); ok && len(as.Lhs) == 1 && flow.ObjOf(f.Info, as.Lhs[0]) == flag {
-					if cv := flow.ConstOf(f.Info, as.Rhs[0]); cv != nil && constant.BoolVal(cv) {
-						setUnderWakeTest = true
+		esol := f.Graph().Solve(ep)
+		sets, good := 0, 0
+		esol.Walk(func(b *flow.Block, i int, n ast.Node, before uint64) {
+			if as, ok := n.(*ast.AssignStmt); ok && len(as.Lhs) == 1 && len(as.Rhs) == 1 && flow.ObjOf(f.Info, as.Lhs[0]) == types.Object(flag) {
+				if cv := flow.ConstOf(f.Info, as.Rhs[0]); cv != nil && cv.Kind() == constant.Bool && constant.BoolVal(cv) {
+					sets++
+					if before&fEq != 0 {
+						good++
 					}
 				}
 			}
-		}
-		return true
-	})
+		})
+		setUnderWakeTest = good > 0 // (the kqueue poller also sets it when re-arming the wake-up failed)
+	}
 	c.Check(setUnderWakeTest, f.Name, "wake-up event sets the chores flag", f.Decl.Pos(), "the eventfd/EVFILT_USER/pipe event leads to the drain",
 		"the wake-up descriptor's event no longer sets "+flag.Name()+": Trigger wakes the poller but the queued tasks are not executed")
 	// cleared at the top of the guarded block, before the first dequeue
@@ -288,7 +310,7 @@ func runC06_8(c *core.Ctx) {
 		isDone := false
 		ast.Inspect(cc.Comm, func(x ast.Node) bool {
 			if call, ok := x.(*ast.CallExpr); ok {
-				if cf := flow.CalleeFunc(f.Info, call); cf != nil && cf.Name() == "Done" && cf.Pkg() != nil && cf.Pkg().Path() == "context" {
+				if cf := flow.CalleeFunc(f.Info, call); cf != nil && nameOf(cf) == "Done" && cf.Pkg() != nil && cf.Pkg().Path() == "context" {
 					if flow.ObjOf(f.Info, flow.Recv(call)) == types.Object(f.param(0)) {
 						isDone = true
 					}
@@ -352,7 +374,7 @@ func runC07_8(c *core.Ctx) {
 			return true
 		}
 		fld := flow.FieldOf(f.Info, rs.X)
-		if fld == nil || fld.Name() != "listeners" {
+		if fld == nil || nameOf(fld) != "listeners" {
 			return true
 		}
 		closes := false
